@@ -117,7 +117,11 @@ func Storm(p *sut.Proc, cfg StormCfg) *StormResult {
 			if !join() {
 				return
 			}
+			timedOut := false
 			do := func(m proto.Message, wantAnswer bool) {
+				if timedOut {
+					return
+				}
 				n := outstanding.Add(1)
 				if n > 1 {
 					atomic.AddInt64(&res.Overlaps, 1)
@@ -135,6 +139,7 @@ func Storm(p *sut.Proc, cfg StormCfg) *StormResult {
 					mu.Lock()
 					res.Unanswered = append(res.Unanswered, fmt.Sprintf("client %d: %T got no pong within %v", ci, m, c.Timeout))
 					mu.Unlock()
+					timedOut = true // one unanswered request decides; the rest of this client's script would only wait again
 					return
 				}
 				if err != nil {
@@ -164,7 +169,7 @@ func Storm(p *sut.Proc, cfg StormCfg) *StormResult {
 				return l[r.Intn(len(l))]
 			}
 			ts := func() *timestamppb.Timestamp { return d.NewTag() }
-			for op := 0; op < cfg.Ops; op++ {
+			for op := 0; op < cfg.Ops && !timedOut; op++ {
 				if c.IsClosed() {
 					atomic.AddInt64(&res.Reconnects, 1)
 					c2, err := dial()
